@@ -1354,11 +1354,97 @@ def differential(ctx, kf, budget_pairs, maxdepth, rnd, with_coq, exhaustive=Fals
     return chk, recs, cases, metas
 
 
+# -------------------------------------------------------------------------------------------------
+# deep whitelist paths (net.ipv4.Subnet, net.tcp.Port ...): each expression in a FRESH process, compiled engine first,
+# so that no earlier import of a fieldtypes submodule can make a name resolve by accident
+
+DEEP_TEMPLATES = {
+    "net.ipv4.Subnet": ["r.s in net.ipv4.Subnet('10.0.0.0/8')", "r.s in net.ipv4.Subnet('11.0.0.0/8')",
+                        "net.ipv4.Address(r.s) in net.ipv4.Subnet('10.0.0.0/8')"],
+    "net.ipv4.Address": ["net.ipv4.Address('10.1.2.3') == net.ipv4.Address(r.s)", "net.ipv4.Address('10.9.9.9') == net.ipv4.Address(r.s)"],
+    "net.tcp.Port": ["net.tcp.Port(80) == r.n", "net.tcp.Port(r.n) > 79", "net.tcp.Port(81) == r.n"],
+    "net.udp.Port": ["net.udp.Port(53) == 53", "net.udp.Port(r.n) == 80 and r.n > 1"],
+    "net.ipaddress": ["net.ipaddress(r.s) == net.ipaddress('10.1.2.3')", "net.ipaddress(r.s) in net.ipnetwork('10.0.0.0/8')"],
+    "net.ipnetwork": ["net.ipnetwork('10.0.0.0/8') == net.ipnetwork('10.0.0.0/8')", "net.ipaddress(r.s) in net.ipnetwork('11.0.0.0/8')"],
+    "net.IPAddress": ["net.IPAddress(r.s) == net.ipaddress('10.1.2.3')"],
+    "net.IPNetwork": ["net.IPNetwork('10.0.0.0/8') != net.ipnetwork('11.0.0.0/8')", "net.IPAddress(r.s) in net.IPNetwork('10.0.0.0/8')"],
+}
+# whitelisted ROOT constructors that need a fresh look as well (the name `path` collides with an attribute of
+# DynamicFieldtypeModule: known finding)
+ROOT_TEMPLATES = ["path('/tmp/x') == path('/tmp/x')", "uri('http://a/b/c.txt').filename == 'c.txt'", "string(r.n) == '80'",
+                  "uint16(r.n) == 80"]
+DEEP_SCRIPT = r"""
+import sys, json, datetime
+expr = sys.argv[1]
+from flow.record import RecordDescriptor
+from flow.record.selector import CompiledSelector, Selector
+D = RecordDescriptor("test/c07deep", [("string", "s"), ("varint", "n")])
+r = D(s="10.1.2.3", n=80, _generated=datetime.datetime(2021, 1, 1, tzinfo=datetime.timezone.utc))
+def out(f):
+    try:
+        return ["val", bool(f())]
+    except Exception as e:
+        return ["exc", type(e).__name__, str(e)[:100]]
+oc = out(lambda: CompiledSelector(expr).match(r))        # the compiled engine FIRST
+oi = out(lambda: Selector(expr).match(r))
+# ground truth: the real classes, imported explicitly
+import importlib
+net = importlib.import_module("flow.record.fieldtypes.net")
+for m in ("ip", "ipv4", "tcp", "udp"):
+    importlib.import_module("flow.record.fieldtypes.net." + m)
+import flow.record.fieldtypes as ft
+og = out(lambda: eval(expr, {"r": r, "net": net, "path": ft.path, "uri": ft.uri, "string": ft.string, "uint16": ft.uint16}))
+print("@@" + json.dumps([oc, oi, og]))
+"""
+DEEP_RECORD = "test/c07deep(s='10.1.2.3', n=80)"
+
+
+def deep_paths_check(ctx):
+    import json
+    import subprocess
+    from flow.record.whitelist import WHITELIST
+    deep = [w for w in WHITELIST if "." in w]
+    missing = [w for w in deep if w not in DEEP_TEMPLATES]
+    if missing:
+        raise RuntimeError("whitelisted dotted types without a template in the check: %r" % missing)
+    script = ctx.work / "c07_deep.py"
+    script.write_text(DEEP_SCRIPT)
+    exprs = [e for w in deep for e in DEEP_TEMPLATES[w]] + ROOT_TEMPLATES
+    kf = core.known_for("C07")
+    procs = [(e, subprocess.Popen([core.PY, "-W", "ignore", str(script), e], env=core.env_for_repo(), cwd=str(ctx.work),
+                                  stdout=subprocess.PIPE, stderr=subprocess.STDOUT, text=True)) for e in exprs]
+    n = 0
+    for e, pr in procs:
+        outp = pr.communicate(timeout=120)[0]
+        line = [ln for ln in outp.splitlines() if ln.startswith("@@")]
+        if pr.returncode != 0 or not line:
+            raise RuntimeError("fresh-process evaluation of %r failed: %s" % (e, outp[-400:]))
+        oc, oi, og = json.loads(line[0][2:])
+        for engine, o in (("compiled", oc), ("interpreted", oi)):
+            ctx.count_case(("deep", e, engine), nontrivial=True)
+            n += 1
+            if og[0] == "val" and o[:2] != og[:2] and e.startswith("path("):
+                f = find_known(kf, shape="fieldtype-constructor-path")
+                if f is not None:
+                    ctx.known_finding(f["id"], f["what"])
+                    continue
+            if og[0] == "val" and o[:2] != og[:2] and not ctx.violations:
+                ctx.violation(
+                    "in a fresh process the %s engine gives %s for %s on %s, Python evaluation with the field types imported gives %r" % (
+                        engine, o[1] if o[0] == "val" else "%s(%s)" % (o[1], o[2]), e, DEEP_RECORD, og[1]),
+                    dict(kind="deep", expr=e, engine=engine, got=o, expected=og))
+    ctx.notes.append("deep whitelist paths: %d expressions x 2 engines, each in a fresh process, compiled engine first" % len(exprs))
+    return n
+
+
 def search(ctx, reason):
     """The proof / translator broke: look for a concrete failing expression on the implementation."""
     kf = core.known_for("C07")
     rnd = random.Random(ctx.seed)
     try:
+        deep_paths_check(ctx)
+        if ctx.violations:
+            return True
         # the fixed streams (outside-the-language constructs, typed matchers on nested records) are short: they are tried
         # when the generated stream found nothing, so that a disagreement on an ordinary expression is preferred as witness
         chk, _, _, _ = differential(ctx, kf, 5000 if ctx.tier == "quick" else 40000, 3, rnd, with_coq=False,
@@ -1408,6 +1494,9 @@ def run(ctx):
     ctx.notes.append("implementation-level: %(pairs)d pairs, %(defined)d with ground truth a value and all sub-expressions "
                      "defined, %(agree_checked)d engine results compared with it, %(known)d inside known-finding classes, "
                      "%(outside)d outside-the-language evaluations" % chk.stats)
+    if ctx.violations:
+        return
+    deep_paths_check(ctx)
     if ctx.violations:
         return
     if not quick and len(cases) > 60000:
@@ -1460,5 +1549,19 @@ def replay(obj):
             return 0
         o = oi if obj["engine"] == "interpreted" else oc
         return 0 if truth_of(o) == truth_of(op) else 1
+    if kind == "deep":
+        import subprocess
+        import tempfile
+        with tempfile.TemporaryDirectory(dir=str(core.WORK)) as td:
+            sp = core.Path(td) / "c07_deep.py"
+            sp.write_text(DEEP_SCRIPT)
+            outp = subprocess.run([core.PY, "-W", "ignore", str(sp), obj["expr"]], env=core.env_for_repo(), cwd=td,
+                                  capture_output=True, text=True).stdout
+        import json as _json
+        line = [ln for ln in outp.splitlines() if ln.startswith("@@")]
+        oc, oi, og = _json.loads(line[0][2:])
+        print("replay (fresh process) %s: compiled=%r interpreted=%r python=%r" % (obj["expr"], oc, oi, og))
+        o = oc if obj["engine"] == "compiled" else oi
+        return 0 if (og[0] != "val" or o[:2] == og[:2]) else 1
     print("replay of kind %s: re-run ./check C07" % kind)
     return 2
